@@ -4,6 +4,7 @@ CONSTANTS
   MaxFlush = 1
   MaxRot = 1
   Dedup = TRUE
+  Recheck = TRUE
 CONSTRAINT Emit
 CONSTRAINT Stop
 CHECK_DEADLOCK FALSE
